@@ -106,6 +106,7 @@ class Director:
         self.fired = collections.Counter()
         self.probes = collections.Counter()
         self.cval = collections.defaultdict(float)
+        self.cdrift = collections.defaultdict(float)
         self.writes = []  # acknowledged database writes (all lives)
         self.o = None
         self.aborted = None
@@ -193,6 +194,10 @@ class Director:
             else:
                 ok = script[it] if it < len(script) else (script[-1] if script else True)
             self.cval[actor.name] += 0.0 if ok else 1.0
+            if ok:
+                # "converged" still means a small movement: 0.4 in every row, below the tolerance (0.5)
+                # row by row - which is how the convergence of a table is documented (largest row change)
+                self.cdrift[actor.name] += 0.4
         elif hook in ("EveryNode", "BOC"):
             # the coupled quantity also moves between time nodes (new node, new physics state):
             # convergence must be judged against the value at the start of *this* iteration
@@ -215,7 +220,8 @@ class Director:
             if self.vector_couplers[actor.name] == "nested":
                 # a table (list of rows); the rows are the interface's own and are updated in place
                 tab = self.cvec.setdefault(actor.name, [[0.0, 1.0], [2.0, 3.0]])
-                tab[0][0] = float(self.cval[actor.name])
+                tab[0][0] = float(self.cval[actor.name]) + float(self.cdrift[actor.name])
+                tab[1][0] = 2.0 + float(self.cdrift[actor.name])
                 return tab
             vec = self.cvec.setdefault(actor.name, [0.0, 1.0])
             vec[0] = float(self.cval[actor.name])
